@@ -126,6 +126,7 @@ def run_case(case):
     overlap_uneven = False
     prev_order = None
     prev_stay = set()
+    prev_settled = set()
     waiting_before = False
 
     for f, dt in enumerate(case['dts']):
@@ -198,7 +199,11 @@ def run_case(case):
             break
         # relative order of the coroutines that stayed runnable
         if prev_order is not None:
-            both = [u for u in prev_order if u in prev_stay and u in seen]
+            # only coroutines that were already settled in the previous frame
+            # (runnable at its start: neither woken nor started in it - their
+            # position in that frame is a don't-care) and stayed runnable
+            both = [u for u in prev_order if u in prev_stay
+                    and u in prev_settled and u in seen]
             now = [u for u in order if u in set(both)]
             res.stats['order_comparisons'] += 1
             if both != now:
@@ -227,6 +232,7 @@ def run_case(case):
         for uid in spawned_now:
             if uid not in seen:
                 res.stats['dontcare_spawn_next_frame'] += 1
+        prev_settled = set(prev_stay)
         prev_order, prev_stay = order, stay
         nwait = len(waits_started)
         res.tags['simultaneous_waiters'].add(min(nwait, 6))
